@@ -5,7 +5,7 @@
 # The scratch worktree lives under ${SEED_WT:-/tmp/seedrun_wt} and is removed at the end.
 export GOFLAGS=-mod=mod GOPROXY=off GOSUMDB=off GOTOOLCHAIN=local
 cd /verif
-WT=${SEED_WT:-/tmp/seedrun_wt}
+WT=${SEED_WT:-/tmp/seedrun_wt_$$}
 git -C /repo worktree remove --force $WT 2>/dev/null; rm -rf $WT
 git -C /repo worktree add -q --detach $WT HEAD || exit 2
 seeds="$@"; [ -z "$seeds" ] && seeds=$(ls seeded)
